@@ -114,8 +114,13 @@ def run(tree, target_dir, crate, fq_names, jobs, harness_timeout_s, wall_cap_s, 
                 elif st.lower() in ("undetermined", "solver_error"):
                     undet += 1
             status = r.get("status", "").upper()
+            ed = edet.get(hid) or {}
+            if ed.get("exit_status") == "timeout":
+                status = "TIMEOUT"
+            elif status == "FAILURE" and not failed:
+                status = "ERROR"
             results[hid] = {"status": status, "duration_s": r.get("duration_ms", 0) / 1000.0,
                             "failed_checks": failed, "covers": covers, "undetermined": undet,
-                            "checks": nchecks, "cbmc_stats": stats.get(hid, {}),
-                            "property_details": pdet.get(hid, {}), "error": edet.get(hid, {})}
+                            "checks": nchecks, "cbmc_stats": stats.get(hid) or {},
+                            "property_details": pdet.get(hid) or {}, "error": ed}
     return results, meta
